@@ -709,6 +709,22 @@ pub fn c13(tier: Tier) -> ! {
                             let eab = am.energy(&bm);
                             let eba = bm.energy(&am);
                             let case = json!({"sigma": s, "epsilon": e, "cutoff": c, "r": f64_bits_json(r), "direction": di, "motion": mi});
+                            // the same common motion applied from the left (`Transform2 * LJ2`, by
+                            // reference and by value): the same particle, hence the same energy
+                            let al = &ta * &a;
+                            let bl = ta.clone() * b.clone();
+                            for (moved, right) in [(&al, &am), (&bl, &bm)].iter() {
+                                let dp = ((moved.position.x - right.position.x).powi(2) + (moved.position.y - right.position.y).powi(2)).sqrt();
+                                if !(dp <= 1e-9 * (1. + norm(m.t))) || moved.sigma.to_bits() != right.sigma.to_bits() || moved.epsilon.to_bits() != right.epsilon.to_bits() || moved.cutoff.map(f64::to_bits) != right.cutoff.map(f64::to_bits) {
+                                    run.fail(None, &format!("a particle moved by `Transform2 * LJ2` ({:?}) differs from the one moved by `LJ2 * Transform2` ({:?})", moved, right), case.clone());
+                                }
+                            }
+                            // (identical particles have identical energies; where the two operators
+                            // round the position differently the fields above decide)
+                            let eab_left = al.energy(&bl);
+                            if al == am && bl == bm && eab_left.to_bits() != eab.to_bits() && !(eab_left == 0. && eab == 0.) {
+                                run.fail(None, &format!("common motion applied from the left: E={} but applied from the right E={}", eab_left, eab), case.clone());
+                            }
                             if eab != eba && !((eab - eba).abs() <= 1e-12 * (1. + eab.abs())) {
                                 run.fail(None, &format!("like particles: E(a,b)={} but E(b,a)={}", eab, eba), case.clone());
                             }
@@ -1001,6 +1017,29 @@ impl TestShape {
         match self {
             TestShape::Poly(s) => body_from_json(&serde_json::to_value(s).unwrap()),
             TestShape::Mol(s) => body_from_json(&serde_json::to_value(s).unwrap()),
+        }
+    }
+    /// The shape after a round trip through its JSON text.
+    fn read_back(&self) -> TestShape {
+        match self {
+            TestShape::Poly(s) => TestShape::Poly(serde_json::from_str(&serde_json::to_string(s).unwrap()).unwrap_or_else(|e| machinery_error(&format!("a shape cannot be read back: {}", e)))),
+            TestShape::Mol(s) => TestShape::Mol(serde_json::from_str(&serde_json::to_string(s).unwrap()).unwrap_or_else(|e| machinery_error(&format!("a shape cannot be read back: {}", e)))),
+        }
+    }
+    /// The answer for two placed copies that each went through their JSON text.
+    fn intersects_read_back(&self, a: &Aff, b: &Aff) -> bool {
+        let pa = TestShape::placed(self, a).read_back();
+        let pb = TestShape::placed(self, b).read_back();
+        match (&pa, &pb) {
+            (TestShape::Poly(x), TestShape::Poly(y)) => x.intersects(y),
+            (TestShape::Mol(x), TestShape::Mol(y)) => x.intersects(y),
+            _ => unreachable!(),
+        }
+    }
+    fn placed(&self, a: &Aff) -> TestShape {
+        match self {
+            TestShape::Poly(s) => TestShape::Poly(s.transform(&a.to_t2())),
+            TestShape::Mol(s) => TestShape::Mol(s.transform(&a.to_t2())),
         }
     }
     fn intersects(&self, a: &Aff, b: &Aff) -> bool {
@@ -1325,6 +1364,45 @@ pub fn c12(tier: Tier) -> ! {
             run.fail(None, &w, c);
         }
     }
+    // shapes that were written out and read back - the shape alone before it is placed, and the
+    // two placed copies - answer as exact geometry says (placements at least 1e-6 clear of
+    // contact, so the last digits a text round trip may move do not matter)
+    let mut rb_evals = 0u64;
+    for (name, spec) in shapes.iter() {
+        let s = to_test_shape(spec);
+        let rb = s.read_back();
+        let body = s.body();
+        let r = body.enclosing_radius();
+        for k in 0..16 {
+            let ang = 0.2 + k as f64 * PI / 8.;
+            for &f in [0.0, 0.4, 0.9, 1.3, 1.6, 1.8, 1.95, 2.05, 2.5].iter() {
+                for &rot in [0., 0.7, PI].iter() {
+                    for &mirror in [false, true].iter() {
+                        let mut b_aff = Aff::rot_trans(rot, [f * r * ang.cos(), f * r * ang.sin()]);
+                        if mirror {
+                            b_aff = b_aff.after(&Aff::mirror_x());
+                        }
+                        let a_aff = Aff::rot_trans(0.3, [0.25, -0.125]);
+                        let b_aff = a_aff.after(&b_aff);
+                        let d = depth(&body.transformed(&a_aff), &body.transformed(&b_aff));
+                        if d.abs() <= 1e-6 {
+                            continue;
+                        }
+                        rb_evals += 1;
+                        let first = rb.intersects(&a_aff, &b_aff);
+                        let second = s.intersects_read_back(&a_aff, &b_aff);
+                        for (what, ans) in [("a shape read back from its JSON text and then placed", first), ("two placed copies read back from their JSON text", second)].iter() {
+                            if *ans != (d > 0.) {
+                                run.fail(None, &format!("{}: {}: the copies {} by {:e} but intersects() says {}", name, what, if d > 0. { "overlap" } else { "are separated" }, d.abs(), ans),
+                                    json!({"engine": "read-back", "shape": name, "rotation": rot, "mirror": mirror, "k": k, "f": f, "oracle_depth": d}));
+                            }
+                        }
+                    }
+                }
+            }
+        }
+    }
+    run.set("placements_answered_by_shapes_read_back_from_json", rb_evals);
     run.set("ordered_shape_pairs_answered_on_one_thread", pair_jobs.len() as u64);
     run.set("placements_judged_after_another_shape", pair_evals);
     run.set("evaluations", evals + pair_evals);
@@ -1584,11 +1662,19 @@ pub fn c02(tier: Tier) -> ! {
     {
         use packing::wallpaper::get_wallpaper_group;
         use packing::PackedState;
-        for g in ["p1", "p2", "p2gg"].iter() {
+        // (history 0: replaced before the state was ever scored; 1: scored, replaced, scored again;
+        // 2: scored, copied, replaced in the copy)
+        for (g, history) in ["p1", "p2", "p2gg"].iter().flat_map(|g| (0..3u8).map(move |h| (g, h))) {
             let wg = get_wallpaper_group(wallpaper_enum(g)).unwrap();
             let n = ita_ops(g).len() as f64;
             for &(a, b) in [(0.637556, 0.3), (0.3, 0.9), (1.2, 0.5)].iter() {
                 if let Ok(mut st) = PackedState::from_group(MolecularShape2::from_trimer(a, 120., 1.), &wg) {
+                    if history >= 1 {
+                        let _ = st.score();
+                    }
+                    if history == 2 {
+                        st = st.clone();
+                    }
                     let other = MolecularShape2::from_trimer(b, 90., 0.8);
                     let want_area = body_from_json(&serde_json::to_value(&other).unwrap()).area();
                     st.shape = other;
@@ -1598,13 +1684,19 @@ pub fn c02(tier: Tier) -> ! {
                     if let Some(sc) = st.score() {
                         let want = n * want_area / cell_area;
                         if !((sc - want).abs() <= 1e-8 * want) {
-                            run.fail(None, &format!("{}: a trimer state whose shape was replaced by trimer({}, 90, 0.8) scores {} but copies x area / cell area = {}", g, b, sc, want), json!({"engine": "document", "group": g, "state": doc}));
+                            run.fail(None, &format!("{}: a trimer state (history {}) whose shape was replaced by trimer({}, 90, 0.8) scores {} but copies x area / cell area = {}", g, history, b, sc, want), json!({"engine": "document", "group": g, "state": doc}));
                         }
                     }
                 }
             }
             for &(na, nb) in [(4usize, 7usize), (6, 3)].iter() {
                 if let Ok(mut st) = PackedState::from_group(LineShape::polygon(na).unwrap(), &wg) {
+                    if history >= 1 {
+                        let _ = st.score();
+                    }
+                    if history == 2 {
+                        st = st.clone();
+                    }
                     let other = LineShape::polygon(nb).unwrap();
                     let want_area = body_from_json(&serde_json::to_value(&other).unwrap()).area();
                     st.shape = other;
@@ -1614,7 +1706,7 @@ pub fn c02(tier: Tier) -> ! {
                     if let Some(sc) = st.score() {
                         let want = n * want_area / cell_area;
                         if !((sc - want).abs() <= 1e-8 * want) {
-                            run.fail(None, &format!("{}: a {}-gon state whose shape was replaced by a {}-gon scores {} but copies x area / cell area = {}", g, na, nb, sc, want), json!({"engine": "document", "group": g, "state": doc}));
+                            run.fail(None, &format!("{}: a {}-gon state (history {}) whose shape was replaced by a {}-gon scores {} but copies x area / cell area = {}", g, na, history, nb, sc, want), json!({"engine": "document", "group": g, "state": doc}));
                         }
                     }
                 }
